@@ -1,6 +1,8 @@
 package symex
 
 import (
+	"fmt"
+	"os"
 	"go/token"
 	"go/types"
 	"math/big"
@@ -139,6 +141,14 @@ func (m *Machine) numBin(op token.Token, a, b *smt.Term, nt numT) *smt.Term {
 		m.unsupported("bv binop %s", op)
 	}
 	// Int mode
+	if (op == token.AND || op == token.OR || op == token.XOR || op == token.AND_NOT) && !(a.IsConst() || b.IsConst()) {
+		if constLeafIte(a, 0) <= 64 && a.Op == smt.OIte {
+			return smt.Ite(a.Args[0], m.numBin(op, a.Args[1], b, nt), m.numBin(op, a.Args[2], b, nt))
+		}
+		if constLeafIte(b, 0) <= 64 && b.Op == smt.OIte {
+			return smt.Ite(b.Args[0], m.numBin(op, a, b.Args[1], nt), m.numBin(op, a, b.Args[2], nt))
+		}
+	}
 	switch op {
 	case token.ADD:
 		return wrapInt(smt.IAdd(a, b), nt)
@@ -247,7 +257,24 @@ func (m *Machine) numShift(op token.Token, a, b *smt.Term, nt, bt numT) *smt.Ter
 		m.checkPanic(smt.Not(neg), "negative shift amount")
 	}
 	if m.IntMode() {
+		if !b.IsConst() && b.Lo != nil && b.Hi != nil && b.Lo.Sign() >= 0 && b.Hi.IsInt64() && b.Hi.Int64()-b.Lo.Int64() <= 64 {
+			// bounded shift amount: ite chain over its values instead of forking
+			lo, hi := b.Lo.Int64(), b.Hi.Int64()
+			var acc *smt.Term
+			for k := hi; k >= lo; k-- {
+				r := m.numShift(op, a, smt.IntConstI(k), nt, numT{64, false})
+				if acc == nil {
+					acc = r
+				} else {
+					acc = smt.Ite(smt.Eq(b, smt.IntConstI(k)), r, acc)
+				}
+			}
+			return acc
+		}
 		if !b.IsConst() {
+			if os.Getenv("VERIF_DEBUG") != "" {
+				fmt.Fprintln(os.Stderr, "symbolic shift amount at", m.stack(), b.String())
+			}
 			k := m.Concretize(b, "shift amount")
 			b = smt.IntConstI(k)
 		}
@@ -758,4 +785,27 @@ func pathEq(a, b []int) bool {
 		}
 	}
 	return true
+}
+
+// constLeafIte counts the leaves of an ite tree whose leaves are all constants (1<<30 when it is not one).
+func constLeafIte(t *smt.Term, depth int) int {
+	if t.IsConst() {
+		return 1
+	}
+	if t.Op != smt.OIte || depth > 70 {
+		return 1 << 30
+	}
+	a, b := constLeafIte(t.Args[1], depth+1), constLeafIte(t.Args[2], depth+1)
+	if a+b > 1<<29 {
+		return 1 << 30
+	}
+	return a + b
+}
+
+func (m *Machine) stack() string {
+	out := ""
+	for f := m.curFrame; f != nil; f = f.caller {
+		out += f.fn.String() + "@" + m.posStr(f.pos) + " <- "
+	}
+	return out
 }
